@@ -65,6 +65,13 @@ jose_jwk_gen(jose_cfg_t *cfg, json_t *jwk)
     if (!jwk_hook(cfg, jwk, JOSE_HOOK_JWK_KIND_MAKE))
         return false;
 
+    /* Generation-only parameters never stay in the key. */
+    if (json_object_get(jwk, "bytes") && json_object_del(jwk, "bytes") < 0)
+        return false;
+
+    if (json_object_get(jwk, "bits") && json_object_del(jwk, "bits") < 0)
+        return false;
+
     if (json_unpack(jwk, "{s?s,s:s,s?s,s?o}",
                     "alg", &alg, "kty", &kty, "use", &use, "key_ops", &ko) < 0)
         return false;
